@@ -39,6 +39,13 @@ OBLIGATIONS = [
              "signature bit symbolic per position: every good announcement of another key is still stored and delivered exactly once; forged ones and "
              "non-announcements yield nothing; for odd-field dicts anything delivered is the signed body, verified, in order, and agrees with the stored entry",
         outside="whether odd-field announcements should be accepted at all (the oracle allows either)"),
+    chx("sig_length", "C34_h", "h_sig_length", timeout={"quick": 120, "thorough": 300},
+        desc="real unsign_from_foolscap / got_announcements -> REAL ed25519.verify_signature (only the backend key.verify is ideal) with signature blobs of "
+             "0, 1, 32, 63, 64, 65, 128 bytes: accepted iff the blob has 64 bytes and the ideal check passes; otherwise BadSignature is raised - "
+             "verify_signature never returns a value other than None"),
+    chx("batch_forged_copy", "C34_h", "h_batch_forged_copy", timeout={"quick": 120, "thorough": 300},
+        desc="got_announcements with a genuine announcement of key A, one or two forged copies of it (same message and claimed key, signature that does not "
+             "verify) before or after it, and key B's announcement at any position: the genuine one is delivered exactly once, verified; B's is unaffected"),
     chx("key_identity", "C34_h", "h_key_identity", timeout={"quick": 120, "thorough": 600},
         desc="got_announcements -> real unsign_from_foolscap -> real ed25519.verifying_key_from_string, ideal signature check keyed on the DECODED key: "
              "seqnum 2 under the canonical key string and a replay of seqnum 1 under another spelling of the same key (upper/mixed case, surrounding blanks, "
